@@ -134,7 +134,11 @@ pub fn check(c: &DCase) -> CheckResult {
 }
 
 fn lite_bin() -> std::path::PathBuf {
-    crate::runner::verif_root().join("build/lite/release/vcheck")
+    // (overridable so that a scratch build against a modified tree can be used, see tools/seedtest.sh)
+    match std::env::var_os("VERIF_LITE_BIN") {
+        Some(p) => std::path::PathBuf::from(p),
+        None => crate::runner::verif_root().join("build/lite/release/vcheck"),
+    }
 }
 
 fn run_lite(c: &DCase, pause_ms: u64) -> Result<Value, Fail> {
